@@ -297,10 +297,13 @@ func (m *MWRun) RunScript(c *Client, script []MWOp) {
 		m.X.Probe("noop-statement-checked")
 	}
 	for _, op := range script {
+		if op.Op == "advance" {
+			c.Step(fmt.Sprintf("advance:%d", op.Dur)) // the scheduler sleeps before releasing this step
+			continue
+		}
 		c.Step(op.Op)
 		switch op.Op {
 		case "advance":
-			// executed by the scheduler side: see MWAdvance; here only a yield point
 		case "begin":
 			if !inTxn {
 				if _, err := c.Exec("BEGIN"); err == nil {
@@ -474,6 +477,7 @@ type MWGenOpts struct {
 	Decreasing                             bool // write times may decrease on one writer
 	Txns                                   bool
 	Noops                                  bool
+	Advance                                bool // advance the clock between statements (version creation times differ)
 }
 
 func GenMW(r *rand.Rand, o MWGenOpts) *MWParams {
@@ -565,6 +569,9 @@ func GenMW(r *rand.Rand, o MWGenOpts) *MWParams {
 		if inTxn[c] && r.IntN(3) == 0 {
 			p.Scripts[c] = append(p.Scripts[c], MWOp{Op: "commit"})
 			inTxn[c] = false
+		}
+		if o.Advance && r.IntN(2) == 0 {
+			p.Scripts[c] = append(p.Scripts[c], MWOp{Op: "advance", Dur: []int64{1, 1e6, 1e9, 3e9, 60e9, 3600e9}[r.IntN(6)]})
 		}
 		if o.Noops && !inTxn[c] && r.IntN(4) == 0 {
 			p.Scripts[c] = append(p.Scripts[c], MWOp{Op: []string{"noop-update", "noop-delete", "noop-txn", "noop-refresh"}[r.IntN(4)]})
